@@ -111,6 +111,20 @@ def cases(rng, tier, stats):
             elif k == 8 and sh.kind == "list" and len(sh.items) > 1:
                 prog.append(("expr", G.call("_লিস্ট-পপ", G.var(r.choice(["ক", "গ"])))))
                 sh.items.pop()
+            elif sh.kind == "list" and r.chance(0.6):
+                # concatenation with an operand that is empty at run time must still give a new list
+                empty_side = r.below(3)
+                prog.append(("decl", "খালি", G.lst()))
+                other = G.var(r.choice(["ক", "খ", "গ"]))
+                e = [G.bin_("+", other, G.lst()), G.bin_("+", G.lst(), other), G.bin_("+", G.var("খালি"), other)][empty_side]
+                prog.append(("decl", "অনুলিপি", e))
+                prog.append(("print", G.bin_("==", G.var("অনুলিপি"), G.var("ক"))))
+                prog.append(("print", G.bin_("==", G.var("অনুলিপি"), G.var("খালি"))))
+                prog.append(("expr", G.call("_লিস্ট-পুশ", G.var("অনুলিপি"), G.s("অনুলিপিতে"))))
+                prog.append(("assign", "অনুলিপি", [G.num(0)], G.s("বদল")))
+                prog.append(("expr", G.call("_লিস্ট-পুশ", G.var("খালি"), G.s("খালিতে"))))
+                prog.append(("print", G.var("অনুলিপি")))
+                prog.append(("print", G.var("খালি")))
             elif sh.kind == "list":
                 prog.append(("decl", "যোগফল", G.bin_("+", G.var("ক"), G.var("খ"))))
                 prog.append(("expr", G.call("_লিস্ট-পুশ", G.var("যোগফল"), G.s("নতুন"))))
